@@ -125,7 +125,7 @@ def draw_scale(rng, n):
 
 def workload(ctx, lentil):
     rng = ctx.rng
-    n_cases = 60 if ctx.tier == 'quick' else 450
+    n_cases = ctx.count(60, 450)
     for i in range(n_cases):
         n = gen.rshape(rng, 24, 64, square_p=0.4)
         s = draw_scale(rng, n)
